@@ -281,7 +281,7 @@ def pending_hold_streams():
 
 class Composition(Bounded):
     function = "simfile.notes.group.ungroup_notes o group_notes"
-    PARTS = 6
+    PARTS = 12
 
     def __init__(self, part=0):
         self.part = part
@@ -291,7 +291,7 @@ class Composition(Bounded):
         r = 3 if tier == "quick" else 4
         return (f"all single-player streams on 2 columns x {r} rows and on 3 columns x 2 rows, 5 cell kinds (tap, hold head, roll head, tail, mine; one head kind keysounded) "
                 f"plus 3 and 4 simultaneously open holds with their tails in every order (with / without a trailing tap) "
-                f"x 3 same-beat modes x join on/off x orphan policies {{keep, drop}}^2 x ungroup KEEP_ORPHAN")
+                f"x 4 sets of included types (all; heads without tails; holds without rolls; tails and taps) x 3 same-beat modes x join on/off x orphan policies {{keep, drop}}^2 x the three policies of ungroup_notes")
 
     def run(self, tier, seed):
         import itertools, time
@@ -300,28 +300,38 @@ class Composition(Bounded):
         T = n.NoteType
         kinds = [(T.TAP, None), (T.HOLD_HEAD, 7), (T.ROLL_HEAD, None), (T.TAIL, None), (T.MINE, None)]
         rows = 3 if tier == "quick" else 4
-        include = frozenset(T)
+        # "the original notes of the included types": every note type, heads without their tails, holds without rolls, no heads at all
+        subsets = [frozenset(T), frozenset((T.TAP, T.HOLD_HEAD, T.ROLL_HEAD, T.LIFT)), frozenset((T.HOLD_HEAD, T.TAIL, T.MINE)), frozenset((T.TAIL, T.TAP))]
         cases, failures = 0, []
         pols = (g.OrphanedNotes.KEEP_ORPHAN, g.OrphanedNotes.DROP_ORPHAN)
         import itertools as _it
         for idx, stream in enumerate(_it.chain(grid_streams(2, rows, kinds), grid_streams(3, 2, kinds), pending_hold_streams())):
             if idx % self.PARTS != self.part:
                 continue
-            for sb, join in itertools.product(g.SameBeatNotes, (False, True)):
+            for include, sb, join in itertools.product(subsets, g.SameBeatNotes, (False, True)):
                 for oh, ot in (itertools.product(pols, pols) if join else [(pols[0], pols[0])]):
                     cases += 1
                     try:
                         grouped = list(g.group_notes(stream, include_note_types=include, same_beat_notes=sb, join_heads_to_tails=join,
                                                      orphaned_head=oh, orphaned_tail=ot))
                         back = list(g.ungroup_notes(grouped, orphaned_notes=g.OrphanedNotes.KEEP_ORPHAN))
+                        # what group_notes emits has no note inside a joined hold on its column: the other two policies of
+                        # ungroup_notes have nothing to raise about or to drop
+                        for pol in (g.OrphanedNotes.RAISE_EXCEPTION, g.OrphanedNotes.DROP_ORPHAN):
+                            other = list(g.ungroup_notes(grouped, orphaned_notes=pol))
+                            if other != back:
+                                failures.append(dict(input=dict(stream=[repr(x) for x in stream], include=sorted(t.name for t in include), mode=str(sb), join=join,
+                                                                heads=str(oh), tails=str(ot), ungroup=str(pol)),
+                                                     detail=f"ungroup_notes({pol.name}) gave {other!r} where KEEP_ORPHAN gave {back!r}: nothing in the grouped stream lies inside a hold"))
+                                break
                     except Exception as e:
-                        failures.append(dict(input=dict(stream=[repr(x) for x in stream], mode=str(sb), join=join, heads=str(oh), tails=str(ot)),
+                        failures.append(dict(input=dict(stream=[repr(x) for x in stream], include=sorted(t.name for t in include), mode=str(sb), join=join, heads=str(oh), tails=str(ot)),
                                              detail=f"raised {type(e).__name__}: {e}"))
                         continue
                     exp = expected_after_roundtrip(stream, include, sb, join, oh, ot, n, g)
                     ok = back == exp if sb != g.SameBeatNotes.JOIN_BY_NOTE_TYPE else (sorted(back) == sorted(exp) and all(a.beat <= b.beat for a, b in zip(back, back[1:])))
                     if not ok:
-                        failures.append(dict(input=dict(stream=[repr(x) for x in stream], mode=str(sb), join=join, heads=str(oh), tails=str(ot)),
+                        failures.append(dict(input=dict(stream=[repr(x) for x in stream], include=sorted(t.name for t in include), mode=str(sb), join=join, heads=str(oh), tails=str(ot)),
                                              detail=f"came back as {back!r}; the statement prescribes {exp!r}"))
                     if len(failures) >= 3:
                         return dict(cases=cases, failures=failures, seconds=time.time() - t0)
